@@ -795,8 +795,23 @@ func c07P5(r *core.R) {
 	if m == nil {
 		return
 	}
+	pbfRoleSeparation(r, m, false)
+}
+
+// pbfRoleSeparation is the per-field role analysis shared by C07.P5 and C02.Q5. With skipDone the accesses that are
+// control-dependent on a `<-ctx.Done()` case are ignored (C02 quantifies over schedules of an uncancelled scan).
+func pbfRoleSeparation(r *core.R, m *pbfModel, skipDone bool) {
 	owners := map[string]bool{namedPath(m.decoderT): true, namedPath(m.scannerT): true}
 	acc := m.fieldAccesses(owners)
+	if skipDone {
+		var kept []fieldAccess
+		for _, a := range acc {
+			if !m.underDoneCase(a) {
+				kept = append(kept, a)
+			}
+		}
+		acc = kept
+	}
 	r.Stat("field_accesses", len(acc))
 	// consumer units reachable without passing the spawner (i.e. possibly concurrent with the goroutines)
 	noStart := map[*unit]bool{}
@@ -1005,6 +1020,35 @@ func c07P5(r *core.R) {
 			r.OK(c, f.Pos(), "%d accesses (%d writes) in roles %v: all cross-role pairs are ordered by spawn order or confined to one goroutine", len(as), nw, rl)
 		}
 	}
+}
+
+// underDoneCase: the access sits in the body of a select clause whose communication is `<-ctx.Done()`.
+func (m *pbfModel) underDoneCase(a fieldAccess) bool {
+	par := parentsOf(m.p, a.u.fi)
+	var n ast.Node
+	ast.Inspect(a.u.body, func(x ast.Node) bool {
+		if x != nil && x.Pos() == a.pos {
+			if _, ok := x.(*ast.SelectorExpr); ok && n == nil {
+				n = x
+			}
+		}
+		return true
+	})
+	for p := n; p != nil; p = par[p] {
+		if cc, ok := p.(*ast.CommClause); ok && cc.Comm != nil {
+			isDone := false
+			ast.Inspect(cc.Comm, func(y ast.Node) bool {
+				if call, ok := y.(*ast.CallExpr); ok && isMethod(callee(m.info, call), "context.Context", "Done") {
+					isDone = true
+				}
+				return true
+			})
+			if isDone && n.Pos() > cc.Colon {
+				return true
+			}
+		}
+	}
+	return false
 }
 
 // ---------------------------------------------------------------- P6
